@@ -462,6 +462,17 @@ class C08(Oracle):
             s = gen.mk_state(h, w, {(y, x + 1): f'D{status}{col}'}, y, x, O.R, held)
             yield {'kind': 'step', 'atoms': rng.choice([[0, 1, 4], [4, 0, 1], [0, 4], [0, 1, 4, 2]]), 'state': enc_state(s), 'action': 6,
                    'answers': [0] * 4, 'history': rng.choice([[6, 0], [6, 0, 1, 0], [6, 6, 0], [0, 6, 0, 0], [6, 0, 0]])}
+            if rng.random() < 0.15:
+                # long corridors: coordinates around 127 / 255 (and, rarely, 32767) are coordinates like any other
+                n = rng.choice([130, 140, 200, 260, 300]) if rng.random() < 0.93 else 32800
+                edge = rng.choice([b for b in (127, 255, 32767) if b < n - 1])
+                pos = edge + rng.randint(-2, 1)
+                along_x = rng.random() < 0.5
+                hh, ww = (rng.randint(1, 2), n) if along_x else (n, rng.randint(1, 2))
+                y, x = (rng.randrange(hh), pos) if along_x else (pos, rng.randrange(ww))
+                o = rng.choice(gen.ORIENTS)
+                s = gen.mk_state(hh, ww, {}, y, x, o)
+                yield {'kind': 'step', 'atoms': [0], 'state': enc_state(s), 'action': rng.randrange(4), 'answers': [0] * 4, 'history': [rng.randrange(4) for _ in range(6)]}
 
     def from_line(self, line):
         return step_case_from_line(line)
@@ -1315,6 +1326,18 @@ class C12(Oracle):
         r, e = call(rf.living_reward, reward=-0.75)
         if e or r != -0.75:
             out.append(V('living_reward/wrong', f'{c}'))
+        # a component obtained by name without parameters has the function's own defaults, whatever was built
+        # under that name before (with other values)
+        for nm, custom in (('reach_exit', {'reward_on': 10.0, 'reward_off': -0.25}), ('living_reward', {'reward': 3.0}), ('bump_into_wall', {'reward': 7.0}),
+                           ('bump_moving_obstacle', {'reward': 9.0}), ('actuate_door', {'reward_open': 2.0, 'reward_close': 4.0})):
+            try:
+                rf.factory(nm, **custom)
+                got = rf.factory(nm)(s, a, s2)
+                exp = rf.reward_function_registry[nm](s, a, s2)
+                if got != exp:
+                    out.append(V('factory/defaults-depend-on-what-was-built-before', f'{nm}: {got} instead of {exp} on {c}'))
+            except Exception as e:
+                out.append(V('factory/defaults-depend-on-what-was-built-before', f'{nm}: {type(e).__name__}: {e}'))
         # composites
         parts = [rf.factory('reach_exit', reward_on=5.0, reward_off=0.0), rf.factory('living_reward', reward=-0.05), rf.factory('bump_into_wall', reward=-0.2), rf.factory('pickndrop', object_type=Key, reward_pick=1.0, reward_drop=-1.0)]
         tot, e = call(rf.factory('reduce_sum', reward_functions=parts))
@@ -1795,7 +1818,7 @@ def gen_env_cases(rng, p_random=0.4):
             nact = len(d.get('action_space') or ACTIONS)
         n = rng.randint(3, 40)
         acts = [rng.randrange(nact) for _ in range(n)]
-        reads = [rng.choice(['', 'o', 'oo', 's', 'os', 'r']) for _ in range(n)]
+        reads = [rng.choice(['', 'o', 'oo', 's', 'os', 'r', 'b'] if rng.random() < 0.3 else ['', 'o', 'oo', 's', 'os', 'r']) for _ in range(n)]
         # seed 0 is a seed like any other (a boundary value: it is falsy)
         yield dict(kind='env', seed=0 if rng.random() < 0.12 else rng.randrange(2**31), actions=acts, reads=reads, **src)
 
@@ -1949,6 +1972,20 @@ class C04(Oracle):
                 elif ch == 'r':
                     env.reset()
                     s = ref.functional_reset()
+                elif ch == 'b':
+                    # a look-ahead branch: a deep copy of the environment is driven on its own (steps, a reset);
+                    # the original goes on as if nothing had happened
+                    import copy
+
+                    try:
+                        br = copy.deepcopy(env)
+                        for j in range(3):
+                            _, db = br.step(acts[(ai + j) % len(acts)])
+                            br.observation
+                            if db or j == 1:
+                                br.reset()
+                    except Exception:
+                        pass
             err1 = err2 = None
             try:
                 r, d = env.step(a)
